@@ -134,6 +134,11 @@ def jobs(tier, seed):
             add(src, fn, 2, d2, True, 'even', B=1)
             if tier != 'quick' or src in ('dict', srcs[1]):
                 add(src, fn, 3, U3[1:], True, 'differ', B=1)
+            if tier != 'quick':
+                U4 = [(), (0,), (3,), (0, 1), (1, 2), (2, 3)] + ([(0, 1, 3)] if (deg3 and src not in O.DEG2_TYPES) else [(0, 3)])
+                add(src, fn, 4, U4, False, 'always')
+                add(src, fn, 4, U4, False, 'first_set')
+                add(src, fn, 3, U3, True, 'even', B=1)
             if src != 'dict':
                 add(src, fn, 2, d2, False, 'always', method=True)
                 add(src, fn, 2, d2, True, 'always', B=1, method=True)
